@@ -40,12 +40,12 @@ SPEC = {
                "TestNoEntries/none_shape_directives_only": 0.12, "TestNoEntries/none_shape_json_empty_array": 0.06,
                "TestNoEntries/none_format_raw": 0.12, "TestNoEntries/none_format_uri": 0.12, "TestNoEntries/none_format_uripost": 0.12,
                "TestNoEntries/none_with_explicit_empty_chosencases": 0.08,
-               "TestLongLines/long_line_4k_or_more": 0.8, "TestLongLines/long_line_just_above_4k": 0.2, "TestLongLines/long_line_32k_or_more": 0.1,
-               "TestLongLines/long_format_uri": 0.42, "TestLongLines/long_inline_uris": 0.15, "TestLongLines/long_directive_value": 0.07,
-               "TestLongLines/long_line_delivered_again": 0.3, "TestLongLines/long_line_delivered_again_uri": 0.17,
+               "TestLongLines/long_line_4k_or_more": 0.49, "TestLongLines/long_line_just_above_4k": 0.2, "TestLongLines/long_line_32k_or_more": 0.1,
+               "TestLongLines/long_format_uri": 0.31, "TestLongLines/long_inline_uris": 0.15, "TestLongLines/long_directive_value": 0.07,
+               "TestLongLines/long_line_delivered_again": 0.23, "TestLongLines/long_line_delivered_again_uri": 0.17,
                "TestLongLines/long_line_delivered_again_inline_uris": 0.07, "TestLongLines/long_line_delivered_again_maxammosize_unset": 0.15,
                "TestLongLines/long_line_delivered_again_maxammosize_below": 0.03, "TestLongLines/long_line_delivered_again_maxammosize_above": 0.025,
-               "TestLongLines/long_line_delivered_again_by_passes": 0.18, "TestLongLines/long_line_delivered_again_by_limit": 0.06,
+               "TestLongLines/long_line_delivered_again_by_passes": 0.14, "TestLongLines/long_line_delivered_again_by_limit": 0.06,
                "TestLongLines/long_line_delivered_again_unbounded": 0.04, "TestLongLines/long_line_delivered_again_with_filter": 0.05,
                "TestLongLines/long_single_pass_control": 0.1},
     "manifest": {
